@@ -308,6 +308,43 @@ impl PartialOrd for Wne {
     }
 }
 
+/// `Cc::ptr_eq` / `Weak::ptr_eq`: true exactly for handles of the same allocation, also when a dead
+/// `Weak` is compared with the `Weak` of a later object that the allocator placed at the same address.
+fn ptr_eq_ops(out: &mut Out) {
+    use rust_cc::weak::Weak;
+    let a = Cc::new(7u64);
+    let b = Cc::new(7u64);
+    let a2 = a.clone();
+    out.line("fwd", "u64", "cc_ptr_eq_same", "-", "-", Cc::ptr_eq(&a, &a2).to_string(), "true".to_string());
+    out.line("fwd", "u64", "cc_ptr_eq_distinct", "-", "-", Cc::ptr_eq(&a, &b).to_string(), "false".to_string());
+    let (wa, wa2, wb) = (a.downgrade(), a.downgrade(), b.downgrade());
+    let wa3 = wa.clone();
+    out.line("fwd", "u64", "weak_ptr_eq_same_downgrade", "-", "-", Weak::ptr_eq(&wa, &wa2).to_string(), "true".to_string());
+    out.line("fwd", "u64", "weak_ptr_eq_same_clone", "-", "-", Weak::ptr_eq(&wa, &wa3).to_string(), "true".to_string());
+    out.line("fwd", "u64", "weak_ptr_eq_distinct", "-", "-", Weak::ptr_eq(&wa, &wb).to_string(), "false".to_string());
+    let (n1, n2): (Weak<u64>, Weak<u64>) = (Weak::new(), Weak::new());
+    out.line("fwd", "u64", "weak_ptr_eq_new_new", "-", "-", Weak::ptr_eq(&n1, &n2).to_string(), "true".to_string());
+    out.line("fwd", "u64", "weak_ptr_eq_new_live", "-", "-", Weak::ptr_eq(&n1, &wa).to_string(), "false".to_string());
+    out.line("fwd", "u64", "weak_ptr_eq_live_new", "-", "-", Weak::ptr_eq(&wa, &n1).to_string(), "false".to_string());
+    // a Weak that outlived its object vs the Weak of a later object at the same address
+    let mut reused = 0usize;
+    for _ in 0..64 {
+        let x = Cc::new([0u64; 5]);
+        let addr = &*x as *const [u64; 5] as usize;
+        let wx = x.downgrade();
+        drop(x);
+        let y = Cc::new([1u64; 5]);
+        let wy = y.downgrade();
+        if &*y as *const [u64; 5] as usize == addr {
+            reused += 1;
+            out.line("fwd", "[u64;5]", "weak_ptr_eq_dead_vs_reused_address", "-", "-", Weak::ptr_eq(&wx, &wy).to_string(), "false".to_string());
+            out.line("fwd", "[u64;5]", "weak_ptr_eq_dead_self", "-", "-", Weak::ptr_eq(&wx, &wx.clone()).to_string(), "true".to_string());
+            if reused >= 4 { break; }
+        }
+    }
+    out.line("fwd", "[u64;5]", "address_reuse_observed", "-", "-", reused.to_string(), reused.to_string());
+}
+
 fn main() {
     let mut out = Out { w: std::io::BufWriter::new(std::io::stdout()), lines: 0, diffs: 0 };
 
@@ -317,6 +354,7 @@ fn main() {
     hash_ops(&mut out, "i64", &i64s);
     debug_ops(&mut out, "i64", &i64s);
     display_ops(&mut out, "i64", &i64s);
+    ptr_eq_ops(&mut out);
     default_op::<i64>(&mut out, "i64");
 
     let tups: Vec<(i32, u8)> = vec![(0, 0), (0, 1), (1, 0), (-1, 255), (i32::MAX, 0), (i32::MIN, 7), (1, 1)];
